@@ -34,6 +34,8 @@ Definition type_cols (pkg parent : bytes) (f : ofield) (t : otype) : N * bytes *
   | TEnum p n => (14, qualify pkg p n, bs "enum")
   | TExt tn k => (11, tn, k)
   | TMap _ => (11, parent ++ [46] ++ map_name (to_snake (f_json f)), [])
+  | TNested n k => (if k =? 2 then 14 else 11, parent ++ [46] ++ n,
+                    if k =? 0 then bs "object" else if k =? 1 then bs "oneof" else bs "enum")
   end.
 
 Definition field_lines (pkg parent : bytes) (in_oneof : bool) (i : N) (f : ofield) : list line :=
@@ -43,14 +45,12 @@ Definition field_lines (pkg parent : bytes) (in_oneof : bool) (i : N) (f : ofiel
        match f_tenant f with Some t => t | None => [] end;
        match f_foreign f with Some p => fst p | None => [] end;
        match f_foreign f with Some p => snd p | None => [] end],
-      (* an optional array / map: the linked descriptor keeps the field in its (synthetic) oneof but
-         not the proto3_optional flag (label repeated) — what protodesc.NewFiles then rejects *)
       [i; pt; b2n (f_repeated f); b2n (f_required f); b2n (f_flatten f);
-       b2n (in_oneof || (f_optional f && f_repeated f));
+       b2n in_oneof;
        b2n (f_primary f); b2n (match f_tenant f with Some _ => true | None => false end);
        b2n (match f_filter f with Some _ => true | None => false end);
        b2n (match f_foreign f with Some _ => true | None => false end);
-       b2n (f_optional f && negb (f_repeated f))])
+       b2n (f_optional f)])
   :: match f_filter f with Some l => [(3, l, [])] | None => [] end.
 
 Fixpoint fields_lines (pkg parent : bytes) (in_oneof : bool) (i : N) (l : list ofield) : list line :=
@@ -59,16 +59,30 @@ Fixpoint fields_lines (pkg parent : bytes) (in_oneof : bool) (i : N) (l : list o
   | f :: r => field_lines pkg parent in_oneof i f ++ fields_lines pkg parent in_oneof (N.succ i) r
   end.
 
-(* the map entry messages of a message, in field order: key = 1 (string), value = 2 *)
+(* the messages nested in a message because of its fields, in field order: the entry message of a map
+   field (key = 1 string, value = 2) and the message of an inline object / oneof; then (a separate list
+   in the descriptor) the inline enums *)
 Definition entry_lines (pkg parent : bytes) (file : N) (fs : list ofield) : list line :=
   flat_map (fun f =>
-    match f_type f with
-    | TMap v =>
+    match f_type f, f_inline f with
+    | TMap v, _ =>
         let '(pt, tn, kind) := type_cols pkg parent f v in
         [ (1, [parent ++ [46] ++ map_name (to_snake (f_json f)); []], [file; 0; 0]);
           (2, [bs "key"; []; []; []; []; []; []], [1; 9; 0; 0; 0; 0; 0; 0; 0; 0; 0]);
           (2, [bs "value"; []; tn; kind; []; []; []], [2; pt; 0; 0; 0; 0; 0; 0; 0; 0; 0]) ]
-    | _ => []
+    | TNested n k, Some il =>
+        if k =? 2 then []
+        else (1, [parent ++ [46] ++ n; []], [file; 0; b2n (k =? 1)])
+             :: fields_lines pkg (parent ++ [46] ++ n) (k =? 1) 1 (map of_sfield (il_fields il))
+    | _, _ => []
+    end) fs
+  ++ flat_map (fun f =>
+    match f_type f, f_inline f with
+    | TNested n k, Some il =>
+        if k =? 2 then (4, [parent ++ [46] ++ n], [])
+                       :: map (fun v => (5, [fst v], [snd v])) (status_values (to_screaming_snake n ++ [95]) (il_options il))
+        else []
+    | _, _ => []
     end) fs.
 
 (* 1: message — [full name; psm entity] [file; psm part; is oneof] *)
@@ -89,7 +103,7 @@ Definition enum_lines (pkg name : bytes) (vs : list (bytes * N)) : list line :=
 
 (* 6: service [full name; annotation strings; audience/default auth (always none: acceptCommands
       replaces the options a command declares)] [file; annotation kind; role]
-   7: method [name; input; output; path] [verb; state_query flag] *)
+   7: method [name; input; output; path; http body] [verb; state_query flag] *)
 Definition svc_lines (pkg : bytes) (file : N) (s : osvc) : list line :=
   let fp := file_pkg pkg file in
   let abs (n : bytes) := match n with 46 :: r => r | _ => fp ++ [46] ++ n end in
@@ -98,7 +112,10 @@ Definition svc_lines (pkg : bytes) (file : N) (s : osvc) : list line :=
    | SCommand en => (6, [fp ++ [46] ++ sv_name s; en; []; []], [file; 2; 0])
    | STopic tn role en => (6, [fp ++ [46] ++ sv_name s; tn; en; []], [file; 3; role])
    end)
-  :: map (fun m => (7, [mt_name m; abs (mt_in m); abs (mt_out m); mt_path m], [mt_verb m; mt_sq m]))
+  (* the http rule's body: "*" for every verb but GET (visitServiceMethodNode); none for topic methods *)
+  :: map (fun m => (7, [mt_name m; abs (mt_in m); abs (mt_out m); mt_path m;
+                        if (mt_verb m =? 0) || (mt_verb m =? 1) then [] else [42]],
+                       [mt_verb m; mt_sq m]))
          (sv_methods s).
 
 (* per file: messages, then enums, then services — the order of a FileDescriptorProto *)
@@ -157,6 +174,7 @@ Definition c17_check (c : c17case) : bool :=
                  && (negb cok || (list_eqb line_eqb (flat_map (fun e => client_lines (client_view e)) es) clines
                                   && grouping_ok es cs))
       | Err s => negb ok && (err_class s =? errc)
+      | Panic _ => negb ok && (errc =? 100)      (* the real compiler panicked (the model never says so) *)
       | _ => false
       end
   end.
